@@ -157,6 +157,12 @@ func (e *SEnv) lookupIdent(name string) (Val, bool) {
 	if v, ok := e.vars[name]; ok {
 		return v, true
 	}
+	if e.frame != nil && strings.HasSuffix(name, "_ptr") {
+		// NAME_ptr: the captured variable NAME itself (environments built at call sites do not carry it)
+		if v, ok := e.frame.fvEntry[name]; ok {
+			return v, true
+		}
+	}
 	switch name {
 	case "true":
 		return specBool(True), true
@@ -1084,6 +1090,15 @@ func (e *SEnv) lockPlace(x SExpr) *Place {
 				return e.r.placeOf(b).withField(i)
 			}
 		}
+	case *SIdent:
+		// a mutex that is a variable captured by the function literal under verification (held(sendMu)):
+		// NAME_ptr is the variable itself
+		if pv, ok := e.lookupIdent(n.Name + "_ptr"); ok {
+			if _, isPtr := pv.T.Underlying().(*types.Pointer); isPtr {
+				return e.r.placeOf(pv)
+			}
+		}
+		sfail("held(%s): not a captured mutex variable", n.Name)
 	}
 	sfail("bad lock expression")
 	return nil
